@@ -2,9 +2,9 @@
 import json, os, random
 import vf
 
-TARGETS = [["root", "f.txt"], ["root", "d"], ["out", "secret.txt"], ["out"], ["rootx", "s.txt"], [], ["root"], ["nowhere"]]
+TARGETS = [["root", "f.txt"], ["root", "d"], ["out", "secret.txt"], ["out"], ["rootx", "s.txt"], ["ROOT", "c.txt"], [], ["root"], ["nowhere"]]
 ALPHA_Q = ["f.txt", "d", "index.html", "l", "m", "..", "", "out", "secret.txt"]
-ALPHA_T = ["f.txt", "d", "g.txt", "index.html", "l", "m", "..", ".", "", "out", "secret.txt", "rootx", "s.txt", "bs", "nul"]
+ALPHA_T = ["f.txt", "d", "g.txt", "index.html", "l", "m", "..", ".", "", "out", "secret.txt", "rootx", "s.txt", "ROOT", "c.txt", "bs", "nul"]
 INVS = ["Confined", "NoOutsideContent", "DenyIsQuiet"]
 
 
@@ -36,7 +36,7 @@ def run(ck, tier, seed):
     quick = tier == "quick"
     rnd = random.Random(seed)
     ck.assumptions += [
-        "file system universe: root/{f.txt,d/{g.txt,index.html?,m?},l?}, sibling rootx/, out/, parent index.html; three names vary over absent/file/link-to-any-of-9-targets",
+        "file system universe: root/{f.txt,d/{g.txt,index.html?,m?},l?}, siblings rootx/ and ROOT/ (the root's name in another letter case), out/, parent index.html; three names vary over absent/file/link-to-any-of-10-targets",
         "request = decoded segment sequence; '..' and '.' are sent in several percent-encoded spellings; 'bs' is a literal '..\\..' name, 'nul' a name with a NUL byte",
         "403 vs 404 is not distinguished: the property only separates 'file bytes returned' from 'refused'; a 301 from http.ServeMux is 'refused'",
         "Linux only; no FIFOs/devices",
